@@ -311,6 +311,8 @@ def real_oracle(args, notes=None):
         return g
 
     nm = NoiseModel([{"name": "pauli_x", "sites": [0], "strength": 0.05}, {"name": "crosstalk_xx", "sites": [0, 1], "strength": 0.02}])
+    if args.get("noise") == "pairs-only":  # correlated noise only: no one-site process anywhere, the pairs reach the last site
+        nm = NoiseModel([{"name": "crosstalk_zz", "sites": [1, 2], "strength": 0.5}, {"name": "crosstalk_xy", "sites": [0, 2], "strength": 0.3}])
     qc = QuantumCircuit(3)
     qc.h(0); qc.cx(0, 1); qc.rzz(0.4, 1, 2); qc.rx(0.3, 2)  # noqa: E702
     H = MPO.ising(3, 1.0, 0.6)
@@ -340,6 +342,13 @@ def real_oracle(args, notes=None):
         finally:
             np.random.default_rng = real_rng
         n_exec = ntraj if noisy else 1
+        if noisy and kind in ("analog", "mcwf"):
+            # every trajectory starts from the state that was passed in: the t = 0 entries do not depend on the trajectory index
+            for o in p.observables:
+                tr = np.real(np.asarray(o.trajectories))
+                if tr.ndim == 2 and tr.shape[0] == ntraj and tr.shape[1] >= 1 and np.max(np.abs(tr[:, 0] - tr[0, 0])) > 1e-9:
+                    return (f"{kind}: the value at t = 0 of <{o.gate.name}> on site {o.sites} differs between the trajectories of one run "
+                            f"({tr[:, 0].tolist()}): they do not all start from the state that was passed in")
         inner = [c for c in rng_calls if not c[0] and not c[1]]
         if noisy and kind != "weak" and len(inner) != n_exec and notes is not None:
             # the mechanism of the model (one OS-seeded generator per noisy trajectory), not the property itself: a serial run could
@@ -356,6 +365,8 @@ def real_oracle(args, notes=None):
 
     vb = _dense.mps_dense(MPS(3, tensors=[t.copy() for t in before[2]], physical_dimensions=[2] * 3))
     va = _dense.mps_dense(st)
+    if abs(np.linalg.norm(vb) - 1) < 1e-9 and abs(np.linalg.norm(va) - 1) > 1e-8:
+        return f"{kind}: the normalised initial state passed in has norm {np.linalg.norm(va):.6f} after the runs"
     if abs(abs(np.vdot(vb, va)) - np.linalg.norm(vb) * np.linalg.norm(va)) > 1e-9 * np.linalg.norm(vb) * max(np.linalg.norm(va), 1e-300):
         return f"{kind}: the initial state passed in represents another state after the runs (overlap {abs(np.vdot(vb, va)):.6f} with what was passed)"
     names = ("operator", "noise model", "initial state")
@@ -384,7 +395,9 @@ def real_oracle(args, notes=None):
 def search(ctx):
     plan = [dict(kind=k, hist=h) for k in ("strong", "analog", "weak", "mcwf") for h in ([True], [False, True], [True, False])]
     plan.append(dict(kind="analog", hist=[True], order=1))
-    plan += [dict(kind="mcwf", hist=[True], asym=True), dict(kind="mcwf", hist=[False, True, False], asym=True), dict(kind="analog", hist=[True, False], asym=True), dict(kind="strong", hist=[False], asym=True)]
+    plan += [dict(kind="analog", hist=[True], order=2, noise="pairs-only"), dict(kind="analog", hist=[True, True], order=1, noise="pairs-only"),
+             dict(kind="strong", hist=[True], noise="pairs-only"),
+             dict(kind="mcwf", hist=[True], asym=True), dict(kind="mcwf", hist=[False, True, False], asym=True), dict(kind="analog", hist=[True, False], asym=True), dict(kind="strong", hist=[False], asym=True)]
     if not ctx.quick:
         for _ in range(20):
             plan.append(dict(kind=str(ctx.rng.choice(["strong", "analog", "weak"])), hist=[bool(b) for b in ctx.rng.integers(0, 2, size=3)],
